@@ -1,0 +1,34 @@
+//go:build verif
+
+// Copyright (c) HashiCorp, Inc.
+// SPDX-License-Identifier: MPL-2.0
+
+package grammar
+
+// Read-only accessors used by the verification harness in /verif. They are
+// compiled only with the build tag "verif" and change no behaviour.
+
+// VerifError is one entry of the parser's error list.
+type VerifError struct {
+	Offset int
+	Prefix string // "line:col (offset): rule <name>"
+	Msg    string // message of the wrapped error
+}
+
+// VerifParse runs Parse and additionally returns the parser's step counter
+// (Stats.ExprCnt) and the (de-duplicated) error list in structured form.
+func VerifParse(b []byte, opts ...Option) (val any, err error, exprCnt uint64, errs []VerifError) {
+	p := newParser("", b, opts...)
+	val, err = p.parse(g)
+	exprCnt = p.ExprCnt
+	if el, ok := err.(errList); ok {
+		for _, e := range el {
+			if pe, ok := e.(*parserError); ok {
+				errs = append(errs, VerifError{Offset: pe.pos.offset, Prefix: pe.prefix, Msg: pe.Inner.Error()})
+			} else {
+				errs = append(errs, VerifError{Offset: -1, Msg: e.Error()})
+			}
+		}
+	}
+	return val, err, exprCnt, errs
+}
